@@ -60,11 +60,11 @@ def bc_ob(cond, d, time, n_pts, m, sel, fshape, form, via="apply", tag_extra="",
             if via == "apply":
                 return boundary_condition_apply(net.u, batch, params, fun, cnd, dim, w)
             if time:
-                loss = LossPDENonStatio(u=net.u, dynamic_loss=None, params=params, omega_boundary_fun=fun,
+                loss = mk_loss(LossPDENonStatio, u=net.u, dynamic_loss=None, params=params, omega_boundary_fun=fun,
                                         omega_boundary_condition=cnd, omega_boundary_dim=dim if form == "dict" or sel.stop - sel.start != 1 or via != "evaluate_int" else sel.start,
                                         loss_weights=LossWeightsPDENonStatio(boundary_loss=w))
             else:
-                loss = LossPDEStatio(u=net.u, dynamic_loss=None, params=params, omega_boundary_fun=fun,
+                loss = mk_loss(LossPDEStatio, u=net.u, dynamic_loss=None, params=params, omega_boundary_fun=fun,
                                      omega_boundary_condition=cnd, omega_boundary_dim=dim if form == "dict" or sel.stop - sel.start != 1 or via != "evaluate_int" else sel.start,
                                      loss_weights=LossWeightsPDEStatio(boundary_loss=w))
             return loss.evaluate(params, batch)[1]["boundary_loss"]
